@@ -211,6 +211,9 @@ func MapBMFF(d []byte) []Field {
 			case "CTBO":
 				if body+4 <= end {
 					fs = append(fs, Field{body, 4, "count", true, 0, "CTBO.count"})
+					for q := body + 4; q+20 <= end; q += 20 { // records: number (1-based index into a fixed table), offset, size
+						fs = append(fs, Field{q, 4, "count", true, 0, "CTBO.recno"}, Field{q + 4, 8, "offset", true, 0, "CTBO.offset"}, Field{q + 12, 8, "ucount", true, 0, "CTBO.size"})
+					}
 				}
 			case "pitm", "hdlr", "CNCV":
 				fs = append(fs, Field{body, end - body, "data", true, 0, typ + ".payload"})
